@@ -191,8 +191,8 @@ theorem next_growth_log (inp : List UInt8) (G : Prop) (fuel : Nat) (r : Reader) 
       simp only [next, hst, hinc]
     rw [this]
     have hw : Win inp G (stepOver r) := by
-      obtain ⟨⟨a, b, c, d, e, f, g, i, w, k⟩, hp⟩ := hb
-      exact ⟨a, b, c, d, e, f, g, i, w, by simp only [stepOver]; omega⟩
+      obtain ⟨⟨a, b, c, d, e, f, g, i, w, k, z⟩, hp⟩ := hb
+      exact ⟨a, b, c, d, e, f, g, i, w, by simp only [stepOver]; omega, z⟩
     exact conv _ _ (nextCont_log inp G fuel (stepOver r) ⟨hw, h1l⟩ he
       (by intro ip h; simp only [stepOver, hip] at h; cases h) hfuel)
       rfl rfl (by simp only [nextByte, hst, stepOver])
